@@ -38,7 +38,7 @@ ASSUMPTIONS = [
     "graphs are compared by an independent blank-node matcher; a simple literal and the same form typed xsd:string are identified",
     "legal short reads are not faults and must give the identical graph",
 ]
-PROBES = ["chunk-inside-multibyte-char", "chunk-inside-escape", "chunk-between-CR-LF", "short-read-stream", "text-stream-without-buffer", "http-redirect", "format-guessed", "fault-fired", "fault-partial", "bufsiz-smaller-than-line", "raw-CR-in-literal"]
+PROBES = ["chunk-inside-multibyte-char", "chunk-inside-escape", "chunk-between-CR-LF", "short-read-stream", "text-stream-without-buffer", "http-redirect", "format-guessed", "fault-fired", "fault-partial", "bufsiz-smaller-than-line", "raw-CR-in-literal", "awkward-path"]
 KNOWN_PREDICATES = {}
 
 OWN = ["nt", "nquads", "turtle", "trig"]
@@ -48,7 +48,7 @@ EXT = {"nt": "nt", "nquads": "nq", "turtle": "ttl", "trig": "trig", "xml": "rdf"
 CTYPE = {"nt": "application/n-triples", "nquads": "application/n-quads", "turtle": "text/turtle", "trig": "application/trig", "xml": "application/rdf+xml", "trix": "application/trix", "json-ld": "application/ld+json"}
 MODES = ["data-str", "data-bytes", "source-bytes", "file-bytesio", "source-stringio", "textwrap-raw", "file-raw", "source-raw", "file-text", "source-text", "sis-str", "sis-bytes", "fis-raw", "path-str", "path-pathlib", "loc-file", "loc-http", "loc-http-redirect", "path-guess", "http-guess", "byteswrapper-text", "byteswrapper-str"]
 BUDGET = 4000000
-STRINGS = ["v", "", "a b", "café", "€ uro", "\U0001F600 smile", 'q"uote', "back\\slash", "line\nbreak", "tab\there", "cr\rhere", "crlf\r\nend", "x' y", "é" * 3, "end\\"]
+STRINGS = ["v", "", "a b", "café", "€ uro", "\U0001F600 smile", 'q"uote', "back\\slash", "line\nbreak", "tab\there", "cr\rhere", "crlf\r\nend", "x' y", "é" * 3, "end\\", "no\ufeffbreak", "\ufeffbom-first"]
 
 
 def _srt(xs):
@@ -267,7 +267,15 @@ def execute(trace, ctx):
         elif mode == "sis-bytes":
             kw = {"source": StringInputSource(data)}
         elif mode in ("path-str", "path-pathlib", "loc-file", "path-guess"):
-            pth = os.path.join(tmpdir, f"doc{op['uid']}." + (ext if mode == "path-guess" or op["uid"] % 2 else "dat"))
+            # file and directory names a user may well have: spaces, non-ASCII, percent signs that look like escapes
+            stem = ["doc", "doc with space", "d\u00f6c-\u00e9", "doc%41x", "doc+plus", "doc,comma"][op["uid"] % 6]
+            sub = ["", "dir with space", "d\u00efr"][(op["uid"] // 6) % 3]
+            if sub:
+                os.makedirs(os.path.join(tmpdir, sub), exist_ok=True)
+                ctx.probe("awkward-path")
+            if stem != "doc":
+                ctx.probe("awkward-path")
+            pth = os.path.join(tmpdir, sub, f"{stem}{op['uid']}." + (ext if mode == "path-guess" or op["uid"] % 2 else "dat"))
             with open(pth, "wb") as fh:
                 fh.write(data)
             if mode == "path-str":
